@@ -137,8 +137,19 @@ pub struct Copy {
     pub heartbeat: u64,
     pub gc: u64,
     pub mv: u64,
-    /// key -> (version, status, age >= grace)
-    pub entries: BTreeMap<String, (u64, u8, bool)>,
+    /// key -> (version, status, age >= grace, value fingerprint)
+    pub entries: BTreeMap<String, (u64, u8, bool, u32)>,
+}
+
+/// Cheap fingerprint of a value (length, first and last bytes): distinguishes the few values of an
+/// exploration's alphabet; exact equality with the owner's write is checked against the ledger.
+pub fn value_fp(v: &str) -> u32 {
+    let b = v.as_bytes();
+    let mut h: u32 = b.len() as u32;
+    for x in b.iter().take(12).chain(b.iter().rev().take(12)) {
+        h = h.wrapping_mul(0x0100_0193) ^ (*x as u32);
+    }
+    h
 }
 
 pub type NodeCopies = BTreeMap<Id, Copy>;
@@ -207,7 +218,7 @@ impl World {
                     .key_values_including_deleted()
                     .map(|(k, vv)| {
                         let e = crate::node::entry_snap_light(vv, now);
-                        (k.to_string(), (vv.version, e.0, e.1.map(|a| a >= grace).unwrap_or(false)))
+                        (k.to_string(), (vv.version, e.0, e.1.map(|a| a >= grace).unwrap_or(false), value_fp(&vv.value)))
                     })
                     .collect();
                 (real::from_real_id(id), Copy { heartbeat: ns.heartbeat().into(), gc: ns.last_gc_version(), mv: ns.max_version(), entries })
@@ -355,9 +366,9 @@ impl World {
                 out.viol("C04", format!("node {i}: frontier of {} went from ({},{}) to ({},{})", m.node_id, b.gc, b.mv, a.gc, a.mv), "frontier-decreased".into());
             }
             let reset = a.gc > b.gc;
-            for (k, (bv, _, _)) in &b.entries {
+            for (k, (bv, _, _, _)) in &b.entries {
                 match a.entries.get(k) {
-                    Some((av, _, _)) => {
+                    Some((av, _, _, _)) => {
                         if av < bv && !reset {
                             out.viol("C04", format!("node {i}: version of {}/{k} went from {bv} to {av} without a reset", m.node_id), "key-version-decreased".into());
                         }
@@ -547,8 +558,8 @@ impl World {
                 if b.mv < b.gc && md.gc < b.gc {
                     out.tally.inc("delta_behind_watermark_into_midreset_copy");
                     if let Some(ledger) = self.ledgers.get(&md.id) {
-                        for (k, (ver, _, _)) in &a.entries {
-                            let newly = b.entries.get(k).map(|(bv, _, _)| bv != ver).unwrap_or(true);
+                        for (k, (ver, _, _, _)) in &a.entries {
+                            let newly = b.entries.get(k).map(|(bv, _, _, _)| bv != ver).unwrap_or(true);
                             if newly && ledger.ledger.iter().any(|w| &w.key == k && w.version > *ver && w.version <= b.gc) {
                                 self.taint.insert((to as u8, md.id.clone(), k.clone(), *ver));
                             }
@@ -778,9 +789,35 @@ impl World {
             }
             Action::Handshake { from, to, choices } => {
                 self.used.handshakes += 1;
+                let c01 = check && self.cfg.has("C01");
+                let (bi, bj) = if c01 { (self.copies(*from as usize), self.copies(*to as usize)) } else { (NodeCopies::new(), NodeCopies::new()) };
                 chitchat::verif::arm_choices(choices.iter().map(|c| *c as usize).collect());
                 self.handshake(*from as usize, *to as usize, check, &mut out);
                 out.choice_log = chitchat::verif::disarm_choices();
+                if c01 && !out.panicked {
+                    // progress clause of C01 on every complete loss-free handshake
+                    let (ai, aj) = (self.copies(*from as usize), self.copies(*to as usize));
+                    let members: BTreeSet<&Id> = bi.keys().chain(bj.keys()).collect();
+                    let (mut lagging, mut advanced) = (0, 0);
+                    for m in members {
+                        let mvi = bi.get(m).map(|c| c.mv).unwrap_or(0);
+                        let mvj = bj.get(m).map(|c| c.mv).unwrap_or(0);
+                        if mvi == mvj {
+                            continue;
+                        }
+                        lagging += 1;
+                        let (b, a) = if mvi < mvj { (bi.get(m), ai.get(m)) } else { (bj.get(m), aj.get(m)) };
+                        if a.map(|c| (c.gc, c.mv)).unwrap_or((0, 0)) > b.map(|c| (c.gc, c.mv)).unwrap_or((0, 0)) {
+                            advanced += 1;
+                        }
+                    }
+                    if lagging > 0 {
+                        out.tally.inc("handshakes_with_lagging_copy");
+                        if advanced == 0 {
+                            out.viol("C01", format!("complete handshake {from}->{to} with {lagging} lagging copies advanced none of them"), "no-progress-edge".into());
+                        }
+                    }
+                }
             }
             Action::Restart { node } => {
                 self.used.restarts += 1;
@@ -828,7 +865,7 @@ impl World {
                 .iter()
                 .map(|(m, c)| {
                     json!({"member": format!("{}#{}", m.node_id, m.generation), "gc": c.gc, "mv": c.mv, "hb": c.heartbeat,
-                           "entries": c.entries.iter().map(|(k,(v,s,old))| format!("{k}@{v}{}{}", ["", "(deleted)", "(ttl)"][*s as usize], if *old {"*"} else {""})).collect::<Vec<_>>()})
+                           "entries": c.entries.iter().map(|(k,(v,s,old,_))| format!("{k}@{v}{}{}", ["", "(deleted)", "(ttl)"][*s as usize], if *old {"*"} else {""})).collect::<Vec<_>>()})
                 })
                 .collect();
             nodes.push(json!({"node": i, "copies": copies}));
@@ -837,7 +874,7 @@ impl World {
     }
 }
 
-pub type NodeCopiesNoHb = BTreeMap<Id, (u64, u64, BTreeMap<String, (u64, u8, bool)>)>;
+pub type NodeCopiesNoHb = BTreeMap<Id, (u64, u64, BTreeMap<String, (u64, u8, bool, u32)>)>;
 
 pub fn strip_heartbeats(m: &Meaning) -> Meaning {
     let strip = |d: &Vec<codec::DigestEntry>| d.iter().map(|e| codec::DigestEntry { heartbeat: 0, ..e.clone() }).collect::<Vec<_>>();
@@ -854,7 +891,7 @@ pub fn strip_heartbeats(m: &Meaning) -> Meaning {
 fn light_members(ms: &[MemberDelta]) -> Vec<MemberDelta> {
     ms.iter()
         .map(|m| MemberDelta {
-            kvs: m.kvs.iter().map(|(k, v, ver, st)| (k.clone(), if v.len() > 16 { format!("#{}", v.len()) } else { v.clone() }, *ver, *st)).collect(),
+            kvs: m.kvs.iter().map(|(k, v, ver, st)| (k.clone(), if v.len() > 16 { format!("#{}:{:08x}", v.len(), value_fp(v)) } else { v.clone() }, *ver, *st)).collect(),
             ..m.clone()
         })
         .collect()
